@@ -1,2 +1,107 @@
-// harness site: src/mania/performance/gradual.rs
+// harness site: src/mania/performance/gradual.rs — C03 (builder hand-over), C15 (gradual performance
+// nth/last protocol); literal around an S1 difficulty state (harness/mania_gradual.rs), with
+// `ManiaPerformance::calculate` replaced by a recording stub.
 #![allow(dead_code, unused_imports, clippy::all, clippy::pedantic)]
+
+use super::*;
+use crate::any::HitResultPriority;
+use crate::mania::difficulty::gradual::verif_harness as s1;
+use crate::mania::{ManiaDifficultyAttributes, ManiaPerformance};
+use crate::model::mode::ConvertError;
+use crate::verif_harness::common::{ghost_probe, verif_replay_table, VerifPerf};
+
+struct Recorded {
+    difficulty: Difficulty,
+    fields: [Option<u32>; 6],
+    acc_set: bool,
+    best_case: bool,
+    attrs: Option<ManiaDifficultyAttributes>,
+}
+
+static mut REC: Option<Recorded> = None;
+static mut REC_CALLS: usize = 0;
+
+pub(crate) fn rec_calculate<'map>(p: ManiaPerformance<'map>) -> Result<ManiaPerformanceAttributes, ConvertError>
+where
+    'map: 'map,
+{
+    unsafe {
+        REC_CALLS += 1;
+        REC = Some(Recorded {
+            difficulty: p.difficulty.clone(),
+            fields: [p.n320, p.n300, p.n200, p.n100, p.n50, p.misses],
+            acc_set: p.acc.is_some(),
+            best_case: p.hitresult_priority == HitResultPriority::BestCase,
+            attrs: p.v_attrs().cloned(),
+        });
+    }
+    core::mem::forget(p);
+    Ok(ManiaPerformanceAttributes::default())
+}
+
+pub(crate) fn pgradual_step<const N: usize, const M: usize>() {
+    let w = s1::any_witness::<N>();
+    let map = s1::map_of(&w);
+    let (m, objs) = s1::model_and_objects::<N>(&map);
+    let state = ManiaScoreState { n320: kani::any(), n300: kani::any(), n200: kani::any(), n100: kani::any(), n50: kani::any(), misses: kani::any() };
+    let mut d = s1::difficulty_of(&w).mods(kani::any::<u32>());
+    if kani::any() {
+        d = d.lazer(kani::any());
+    }
+    let p = w.p;
+    let remaining = N - p;
+    let n = if w.call == 0 { 0 } else if w.call == 2 { usize::MAX } else { w.n };
+
+    if ghost_probe() {
+        let inner = s1::literal_state::<N, M>(&w, &m, &objs, d.clone());
+        let mut gp = ManiaGradualPerformance { difficulty: inner };
+        assert!(gp.len() == remaining, "C15 mania gradual performance: len() is the number of objects left");
+        let res = match w.call {
+            0 => gp.next(state.clone()),
+            2 => gp.last(state.clone()),
+            _ => gp.nth(state.clone(), n),
+        };
+        assert!(res.is_some() == (remaining > 0), "C15 mania gradual performance: None exactly when nothing remains");
+        if remaining > 0 {
+            let k = core::cmp::min(p.saturating_add(n).saturating_add(1), N);
+            assert!(gp.difficulty.idx == k, "C15 mania gradual performance: processes min(n + 1, remaining) objects");
+            let rec = unsafe { REC.as_ref() };
+            assert!(unsafe { REC_CALLS } == 1 && rec.is_some(), "C03 mania: exactly one one-shot calculation per step");
+            let rec = rec.unwrap();
+            assert!(rec.difficulty == d.clone().passed_objects(k as u32), "C03 mania: the one-shot builder gets the gradual settings with passed_objects(idx)");
+            let s = &state;
+            assert!(rec.fields == [Some(s.n320), Some(s.n300), Some(s.n200), Some(s.n100), Some(s.n50), Some(s.misses)],
+                "C03 mania: the one-shot builder gets exactly the given score state");
+            assert!(!rec.acc_set && rec.best_case, "C03 mania: no accuracy or priority leaks into the one-shot builder");
+            let a = rec.attrs.as_ref();
+            assert!(a.is_some(), "C03 mania: the one-shot builder is attribute-backed");
+            let a = a.unwrap();
+            assert!(a.n_objects as usize == k && a.n_hold_notes == m.holds[k], "C03 mania: the one-shot builder holds the attributes of exactly the processed prefix");
+        } else {
+            assert!(unsafe { REC_CALLS } == 0, "C03 mania: nothing is calculated when nothing remains");
+        }
+        kani::cover!(N < 2 || (w.call == 2 && remaining > 1), "last() with several objects left");
+        kani::cover!(N < 2 || (w.call == 1 && n > 0 && n < remaining), "nth inside the map");
+        kani::cover!(remaining == 0, "nothing remains");
+        core::mem::forget(gp);
+    } else {
+        let mut gp = ManiaGradualPerformance::new(d.clone(), &map).unwrap();
+        for _ in 0..p {
+            let _ = gp.next(state.clone());
+        }
+        let res = match w.call {
+            0 => gp.next(state.clone()),
+            2 => gp.last(state.clone()),
+            _ => gp.nth(state.clone(), n),
+        };
+        assert!(res.is_some() == (remaining > 0), "C15 mania gradual performance: None exactly when nothing remains");
+        if let Some(res) = res {
+            let k = core::cmp::min(p.saturating_add(n).saturating_add(1), N);
+            let one = ManiaPerformance::new(&map).difficulty(d.clone()).passed_objects(k as u32).state(state.clone()).calculate().unwrap();
+            // (max_combo under clock rates is the known finding KF-C02-mania-combo-clock-rate)
+            assert!(one.pp == res.pp && one.difficulty.n_objects == res.difficulty.n_objects, "C03 mania: gradual performance equals one-shot performance on the prefix");
+        }
+    }
+    core::mem::forget((map, objs));
+}
+
